@@ -9,6 +9,7 @@
 #include <algorithm>
 #include <atomic>
 #include <cctype>
+#include <charconv>
 #include <chrono>
 #include <fstream>
 #include <deque>
@@ -765,7 +766,10 @@ protected:
 
       std::string headerSection = dataStr.substr(0, headerEnd);
       std::size_t contentLength = 0;
+      bool haveContentLength = false;
+      bool haveTransferEncoding = false;
       bool isChunked = false;
+      bool invalidFraming = false;
 
       // Parse headers
       std::istringstream headerStream(headerSection);
@@ -794,38 +798,48 @@ protected:
 
           if (key == "content-length")
           {
-            try
+            // RFC 9112 §6.3: the value is a number (or a list of identical
+            // numbers), nothing else; field-lines that disagree are invalid.
+            std::uint64_t declared = 0;
+            if (!parseContentLengthValue(value, declared) ||
+                (haveContentLength && declared != contentLength))
             {
-              contentLength = std::stoull(value);
-              if (contentLength > SessionInfo::MAX_BODY_SIZE)
-              {
-                iora::core::Logger::error("HttpServer: Body size limit exceeded for session " +
-                                          std::to_string(sid) + " - closing connection");
-                // No lock held; guarded close (was unguarded raw _transport->close).
-                closeSession(sid);
-                return;
-              }
+              invalidFraming = true;
             }
-            catch (...)
+            else if (declared > SessionInfo::MAX_BODY_SIZE)
             {
-              iora::core::Logger::error("HttpServer: Invalid "
-                                        "content-length header for session " +
+              iora::core::Logger::error("HttpServer: Body size limit exceeded for session " +
                                         std::to_string(sid) + " - closing connection");
               // No lock held; guarded close (was unguarded raw _transport->close).
               closeSession(sid);
               return;
             }
+            else
+            {
+              contentLength = static_cast<std::size_t>(declared);
+              haveContentLength = true;
+            }
           }
           else if (key == "transfer-encoding")
           {
-            // Convert value to lowercase for comparison
-            std::transform(value.begin(), value.end(), value.begin(), ::tolower);
-            if (value.find("chunked") != std::string::npos)
-            {
-              isChunked = true;
-            }
+            // RFC 9112 §6.1: the body is chunked iff "chunked" is the FINAL coding.
+            haveTransferEncoding = true;
+            isChunked = transferEncodingFinalIsChunked(value);
           }
         }
+      }
+
+      // RFC 9112 §6.3: a request whose length information is invalid (non-numeric
+      // or conflicting Content-Length), ambiguous (Content-Length together with
+      // Transfer-Encoding) or not self-delimiting (Transfer-Encoding whose final
+      // coding is not chunked) is answered 400 and the connection closed - never
+      // framed by guesswork (request smuggling).
+      if (invalidFraming || (haveTransferEncoding && (haveContentLength || !isChunked)))
+      {
+        iora::core::Logger::error("HttpServer: Invalid message framing for session " +
+                                  std::to_string(sid) + " - closing connection");
+        sendErrorResponse(sid, 400, "Bad Request", "Invalid message framing");
+        return;
       }
 
       std::size_t requestEndPos;
@@ -1434,6 +1448,70 @@ protected:
 
     iora::core::Logger::debug("HttpServer::processHttpRequest() - Exiting for session " +
                               std::to_string(sid));
+  }
+
+  /// \brief Parse a Content-Length field value (RFC 9112 §6.3): digits only, or a
+  /// comma-separated list of identical numbers. No sign, no junk, no overflow.
+  static bool parseContentLengthValue(const std::string &v, std::uint64_t &out)
+  {
+    bool have = false;
+    std::size_t pos = 0;
+    while (pos <= v.size())
+    {
+      const std::size_t comma = v.find(',', pos);
+      const std::size_t end = (comma == std::string::npos) ? v.size() : comma;
+      std::size_t a = pos;
+      std::size_t b = end;
+      while (a < b && (v[a] == ' ' || v[a] == '\t')) ++a;
+      while (b > a && (v[b - 1] == ' ' || v[b - 1] == '\t')) --b;
+      std::uint64_t val = 0;
+      if (a == b)
+      {
+        return false;
+      }
+      auto r = std::from_chars(v.data() + a, v.data() + b, val, 10);
+      if (r.ec != std::errc() || r.ptr != v.data() + b || (have && val != out))
+      {
+        return false;
+      }
+      out = val;
+      have = true;
+      if (comma == std::string::npos)
+      {
+        break;
+      }
+      pos = comma + 1;
+    }
+    return have;
+  }
+
+  /// \brief True iff the final coding of a Transfer-Encoding value is "chunked"
+  /// (tokenized at commas, OWS-trimmed, ASCII case-insensitive).
+  static bool transferEncodingFinalIsChunked(const std::string &v)
+  {
+    std::string last;
+    std::size_t pos = 0;
+    while (pos <= v.size())
+    {
+      const std::size_t comma = v.find(',', pos);
+      const std::size_t end = (comma == std::string::npos) ? v.size() : comma;
+      std::size_t a = pos;
+      std::size_t b = end;
+      while (a < b && (v[a] == ' ' || v[a] == '\t')) ++a;
+      while (b > a && (v[b - 1] == ' ' || v[b - 1] == '\t')) --b;
+      if (a < b)
+      {
+        last = v.substr(a, b - a);
+      }
+      if (comma == std::string::npos)
+      {
+        break;
+      }
+      pos = comma + 1;
+    }
+    std::transform(last.begin(), last.end(), last.begin(),
+                   [](unsigned char c) { return (c >= 'A' && c <= 'Z') ? static_cast<char>(c + 32) : static_cast<char>(c); });
+    return last == "chunked";
   }
 
   /// \brief Find the end of a chunked request body
